@@ -871,6 +871,10 @@ func TestC14Matrix(t *testing.T) {
 		{"list", func() *lib.Node { return lib.Call("split", lib.Value(), lib.Str(",")) }},
 		{"list", func() *lib.Node { return lib.Call("list", lib.Int(1), lib.Int(2)) }},
 		{"json", func() *lib.Node { return lib.Call("json", lib.Str(`{"a": 1}`)) }},
+		// an element of a list of texts: statically a text (the values of the
+		// matrix store read as numbers, so a wrongly accepted arithmetic on it
+		// would even "work" - until a value is not a number)
+		{"text", func() *lib.Node { return lib.Index(lib.Call("split", lib.Value(), lib.Str(",")), 0) }},
 	}
 	binops := []string{"=", "!=", "<", "<=", ">", ">=", "^=", "~=", "+", "-", "*", "/", "&", "|", "and", "or"}
 	idx := 0
